@@ -1,5 +1,7 @@
 import ZxVerif.Props.C04
+import ZxVerif.Props.C04X
 import ZxVerif.Props.C05
 import ZxVerif.Props.C06
 import ZxVerif.Props.C07
 import ZxVerif.Props.C17
+import ZxVerif.Props.C17X
